@@ -128,6 +128,10 @@ class SharedMemoryFileBufferedCollection(FileBufferedCollection):
                     if cached_data["modified"]:
                         if cached_data["metadata"] != self._get_file_metadata():
                             raise MetadataError(self._filename, cached_data["contents"])
+                        # The buffer holds the data shared by all collections
+                        # pointing to this file; this instance may never have
+                        # loaded it (its own data would then be stale).
+                        self._data = cached_data["contents"]
                         self._save_to_resource()
                 finally:
                     # Whether or not an error was raised, the cache must be
